@@ -92,6 +92,20 @@ def _run_one(prop, base_seed, index, tier):
     return case, res
 
 
+def _limit_worker_memory():
+    """A run that never terminates while accumulating an answer (a traversal caught in a cycle)
+    must end as an error of that run, not take the machine down: each worker's address space is
+    capped (VERIF_WORKER_MEM_GB, default 6)."""
+    try:
+        import resource
+
+        gb = float(os.environ.get("VERIF_WORKER_MEM_GB", "6"))
+        lim = int(gb * (1 << 30))
+        resource.setrlimit(resource.RLIMIT_AS, (lim, lim))
+    except Exception:
+        pass
+
+
 def _worker_chunk(args):
     prop, base_seed, indices, tier, wall_per_run = args
     faulthandler.enable()
@@ -135,7 +149,7 @@ def run_batch(prop, tier, base_seed, nruns=None, workers=None, wall_cap=None, qu
     stop = False
     broken = [False]
     per_run_wall = 180 if tier == "quick" else 900
-    with ProcessPoolExecutor(max_workers=workers, mp_context=ctx) as ex:
+    with ProcessPoolExecutor(max_workers=workers, mp_context=ctx, initializer=_limit_worker_memory) as ex:
         pending = {}
         it = iter(chunks)
 
@@ -175,18 +189,53 @@ def run_batch(prop, tier, base_seed, nruns=None, workers=None, wall_cap=None, qu
 
 
 # ---------------------------------------------------------------------------
+class RunTooLong(Exception):
+    pass
+
+
+def run_limited(spec, case, seconds=120):
+    """spec.run(case) in this process with a wall limit (SIGALRM): raises RunTooLong."""
+    import signal
+
+    def _alarm(signum, frame):
+        raise RunTooLong("run exceeded %d s in the parent process" % seconds)
+
+    old = signal.signal(signal.SIGALRM, _alarm)
+    signal.alarm(seconds)
+    try:
+        return spec.run(case)
+    finally:
+        signal.alarm(0)
+        signal.signal(signal.SIGALRM, old)
+
+
 def shrink(spec, case, clause, budget_s=60):
     """ddmin over the operation list, then per-op simplification, while the
     same clause keeps failing."""
     t0 = time.time()
     tests = [0]
 
+    class _TooLong(BaseException):
+        pass
+
+    def _alarm(signum, frame):
+        raise _TooLong()
+
     def fails(c):
+        # candidates run in this (the parent) process: each gets a wall limit, so that a changed
+        # library caught in an endless traversal cannot hang or exhaust the machine while shrinking
         tests[0] += 1
+        import signal
+
+        old = signal.signal(signal.SIGALRM, _alarm)
+        signal.alarm(20)
         try:
             r = spec.run(c)
         except BaseException:
             return False
+        finally:
+            signal.alarm(0)
+            signal.signal(signal.SIGALRM, old)
         return r.violation is not None and r.violation[0] == clause
 
     def with_ops(ops):
@@ -415,7 +464,7 @@ def main_check(prop, tier, base_seed, nruns=None, workers=None):
             try:
                 with open(os.path.join(VERIF, rp)) as fh:
                     doc = json.load(fh)
-                rr = spec.run(doc["case"])
+                rr = run_limited(spec, doc["case"])
                 reproduced = rr.violation is None and rr.probes.get("known:" + f["signature"], 0) > 0
                 if rr.violation is not None:
                     # the recorded example now fails in a way the listed signature does not cover
@@ -432,10 +481,19 @@ def main_check(prop, tier, base_seed, nruns=None, workers=None):
             case["schedule"] = r["extra"]["schedule"]  # pin the interleaving explicitly
         clause = r["violation"][0]
         small = shrink(spec, case, clause)
-        res2 = spec.run(small)
-        if res2.violation is None or res2.violation[0] != clause:
+        try:
+            res2 = run_limited(spec, small)
+        except RunTooLong:
+            res2 = None
+        if res2 is None or res2.violation is None or res2.violation[0] != clause:
             small = case
-            res2 = spec.run(case)
+            try:
+                res2 = run_limited(spec, case)
+            except RunTooLong:
+                # the failing run does not terminate here: report it as it was seen by the worker
+                from .engine import Result
+                res2 = Result()
+                res2.violation = tuple(r["violation"])
         if res2.violation is None:
             harness_errors.append("violation %s of run %d did not reproduce in the parent process" % (clause, r["index"]))
         else:
